@@ -114,3 +114,45 @@ func VxH_C19_cycles() {
 	ok := len(s) == 1 && int(s[0]) == '0'+v
 	vx.Assert("cycles-end-in-decimal", ok)
 }
+
+// pad with systems that do not use a negative sign (cyclic, fixed): the pad is
+// not reduced for negative values, and no sign is printed.
+func VxH_C19_pad_nosign() {
+	pad := vx.Choose("pad", 5)
+	fixed := vx.Bool("fixed")
+	v := vx.Int("v", -6, 6)
+	var d CounterStyleDescriptors
+	if fixed {
+		d.System = CounterStyleSystem{"", "fixed", -3}
+		d.Symbols = vxSyms(4)
+	} else {
+		d.System = CounterStyleSystem{"", "cyclic", -1}
+		d.Symbols = vxSyms(2)
+	}
+	d.Negative = [2]pr.NamedString{vxStr("-"), vxStr("")}
+	d.Pad = pr.IntNamedString{NamedString: vxStr("0"), Int: pad}
+	d.Range.Auto = true
+	cs := CounterStyle{"x": d, "decimal": vxDecimal()}
+	s := cs.RenderValue(v, "x")
+	if fixed && (v < -3 || v > 0) {
+		vx.Reach("fixed-out-of-range")
+		vx.Assert("fallback-decimal", s == cs.RenderValue(v, "decimal"))
+		return
+	}
+	vx.Reach("rendered")
+	want := 1
+	if pad > 1 {
+		want = pad
+	}
+	vx.Assert("pad-length", len(s) == want)
+	for i := 0; i+1 < len(s); i++ {
+		vx.Assert("pad-symbol", s[i] == '0')
+	}
+	var sym int
+	if fixed {
+		sym = 'a' + (v + 3)
+	} else {
+		sym = 'a' + vxMod(v-1, 2)
+	}
+	vx.Assert("last-is-symbol", int(s[len(s)-1]) == sym)
+}
